@@ -9,6 +9,7 @@ mod fam_bank;
 mod fam_curve;
 mod fam_fees;
 mod fam_fx;
+mod fam_health;
 mod fam_tx;
 mod fam_gate;
 mod fam_integr;
@@ -74,6 +75,7 @@ fn main() {
                 "account" => fam_account::gen(&mut rng, n, &mut out),
                 "fees" => fam_fees::gen(&mut rng, n, &mut out),
                 "tx" => fam_tx::gen(&mut rng, n, &mut out),
+                "health" => fam_health::gen(&mut rng, n, &mut out),
                 "panic" => fam_panic::gen(&mut rng, n, &mut out),
                 _ => {
                     eprintln!("unknown family {}", fam);
@@ -106,6 +108,7 @@ fn main() {
                 "C03" => mon_c03::run(&mut rng, n, &mut rep),
                 "C08" => mon_c08::run(&mut rng, n, &mut rep),
                 "BR" => mon_c10::run(&mut rng, n, &mut rep),
+                "TXS" => fam_tx::monitor(&mut rng, n, &mut rep),
                 "C12" => mon_c12::run(&mut rng, n, &mut rep),
                 "C13" => mon_c13::run(&mut rng, n, &mut rep),
                 "C14" => mon_c14::run(&mut rng, n, &mut rep),
